@@ -3,19 +3,28 @@
   usage: ciderdrv [gen|spec] < ops > out      (one op per line in, one canonical line out)
   `gen`  : tables regenerated from the live code (correspondence tie)
   `spec` : frozen published tables (the property oracle)
+  Stateful ops act on numbered objects; `reset` forgets all of them.
 -/
 import Cider.Model.TablesSpec
 import Cider.Model.TablesGen
 import Cider.Spec.Defs
+import Cider.Model.Text
+import Cider.Model.Object
+import Cider.Model.Profiles
+import Cider.Model.Moves
+import Cider.Model.TextOps
 open Cider
 
 def ratStr (q : Rat) : String := s!"{q.num}/{q.den}"
 def outRat (q : Rat) : String := "rat " ++ ratStr q
 def outVec (v : List Rat) : String := "vec" ++ String.join (v.map (fun q => " " ++ ratStr q))
+def outNats (v : List Nat) : String := "ints" ++ String.join (v.map (fun q => s!" {q}"))
 def outExc (e : Err) : String := "exc " ++ e.name
 def outExcept {α} (f : α → String) : Except Err α → String
   | .ok a => f a
   | .error e => outExc e
+def outMat (rows : List (List Rat)) : String :=
+  s!"mat {rows.length} {(rows.head?.map List.length).getD 0}" ++ String.join (rows.flatten.map (fun q => " " ++ ratStr q))
 
 def patStr (p : Pattern) : String :=
   String.ofList (p.map (fun x => if 0 < x then '+' else if x < 0 then '-' else '0'))
@@ -25,15 +34,19 @@ def hexVal (c : Char) : Nat :=
   else if 'a' ≤ c ∧ c ≤ 'f' then c.toNat - 'a'.toNat + 10
   else if 'A' ≤ c ∧ c ≤ 'F' then c.toNat - 'A'.toNat + 10 else 0
 
-/-- hex string of UTF-32 code points, 6 hex digits each: "000041" = 'A' -/
+/-- hex string of code points, 6 hex digits each: "000041" = 'A' -/
 def unhex6 : List Char → List Char
   | a :: b :: c :: d :: e :: f :: rest =>
     Char.ofNat (((((hexVal a * 16 + hexVal b) * 16 + hexVal c) * 16 + hexVal d) * 16 + hexVal e) * 16 + hexVal f) :: unhex6 rest
   | _ => []
 
+def hex6 (cs : List Char) : String :=
+  String.join (cs.map (fun c =>
+    let h := (Nat.toDigits 16 c.toNat)
+    String.ofList (List.replicate (6 - h.length) '0' ++ h)))
+
 /-- group token: "-" = None, "[]" = empty list, else comma separated members: "s<hex6...>" or "n" -/
 def parseGroupTok (t0 : String) : Option (List PyMember) :=
-  -- "S:" prefix = the harness passes the group to the real API as one str (iterated char by char)
   let t := if t0.startsWith "S:" then (t0.drop 2).toString else t0
   if t == "-" then none
   else if t == "[]" then some []
@@ -42,9 +55,12 @@ def parseGroupTok (t0 : String) : Option (List PyMember) :=
     | 's' :: rest => PyMember.str (unhex6 rest)
     | _ => PyMember.nonStr))
 
+/-- list of groups: groups separated by ';' ("-" = no groups given) -/
+def parseGroupsTok (t : String) : List (List PyMember) :=
+  if t == "-" then [] else (t.splitOn ";").map (fun g => (parseGroupTok g).getD [])
+
 def lagVec (p : Pattern) : List Int := (List.range p.length).tail.map (fun d => lagSum p d)
 
-/-- all distinct arrangements of a composition (driver-only helper for the exhaustive arg-max oracle) -/
 partial def arrangements : Nat → Nat → Nat → List Pattern
   | 0, 0, 0 => [[]]
   | a, b, c =>
@@ -52,74 +68,218 @@ partial def arrangements : Nat → Nat → Nat → List Pattern
     (if b > 0 then (arrangements a (b - 1) c).map ((-1 : Int) :: ·) else []) ++
     (if c > 0 then (arrangements a b (c - 1)).map ((0 : Int) :: ·) else [])
 
-/-- the true delta-maximising arrangement by exhaustive search (first maximiser) -/
 def trueArgmax (a b c : Nat) : Rat × Pattern :=
   (arrangements a b c).foldl (fun (acc : Rat × Pattern) p => let d := delta p; if acc.1 < d then (d, p) else acc) (-1, [])
 
-def handle (T : Tables) (line : String) : String :=
+def specPalette : Palette := Spec.defaultPalette
+def genPalette : Palette := Gen.defaultPalette
+
+structure Cfg where
+  T : Tables
+  pal : Palette
+  reduceTab : Nat → Option (AA → AA)
+  alphabetTab : Nat → Option (List AA)
+
+/-- dict token: comma separated `<hexkey>=<hexval>` ("v" alone as value = non-string value) -/
+def parseDictTok (t : String) : PyDict :=
+  if t == "-" then [] else
+  (t.splitOn ",").filterMap (fun kv =>
+    match kv.splitOn "=" with
+    | [k, v] => some (String.ofList (unhex6 k.toList), if v == "n" then "\u0000nonstring" else String.ofList (unhex6 v.toList))
+    | _ => none)
+
+/-- user alphabet token: "-" = none/empty, else dict token -/
+def parseUserAlphabet (t : String) : Option UserAlphabet :=
+  if t == "-" then none else
+  let d := parseDictTok t
+  some (fun a => (d.get? (String.singleton a.toChar)).map String.toList)
+
+/-- reduced sequence + alphabet for (size, user alphabet) as `reduce_alphabet` does -/
+def reduceSeq (cfg : Cfg) (size : Option Nat) (ua : Option UserAlphabet) (s : Seq) : Except Err (Seq × List AA) :=
+  match ua with
+  | some u =>
+    match userAlphabetMap u with
+    | none => .error .badAlphabet
+    | some f => .ok (s.map f, userAlphabetLetters f)
+  | none =>
+    match size with
+    | none => .error .badAlphabetSize
+    | some k =>
+      match cfg.reduceTab k, cfg.alphabetTab k with
+      | some f, some al => .ok (s.map f, al)
+      | _, _ => .error .badAlphabetSize
+
+def posRow (s : Seq) : List Rat := (positions1N s.length).map (fun (n : Nat) => (n : Rat))
+
+def seqQuery (cfg : Cfg) (name : String) (s : Seq) (args : List String) : String :=
+  let T := cfg.T
+  let p := patternOf T s
+  match name, args with
+  | "kappa", [] => outRat (seqKappa T s)
+  | "delta", [] => outRat (seqDelta T s)
+  | "dform", [w] => outRat (deltaForm w.toNat! p)
+  | "dmax", [] => outRat (seqDmax T s)
+  | "dmaxperm", [] =>
+    match dmaxArg p with
+    | none => s!"perm {ratStr (seqDmax T s)} - {s.toString}"
+    | some c => s!"perm {ratStr (seqDmax T s)} {patStr c} {(permutantFromReduced c s).toString}"
+  | "sigma", [] => outRat (seqSigma T s)
+  | "specdelta", [] => outRat (Spec.delta p)
+  | "specsigma", [] => outRat (Spec.sigmaDef p)
+  | "specdmax", [] => outRat (Spec.dmaxDef (countPos p) (countNeg p) (countNeut p))
+  | "specregion", [] => s!"int {Spec.regionDef (countPos p) (countNeg p) p.length}"
+  | "pattern", [] => "str " ++ patStr p
+  | "omega", [] => outRat (omega T s)
+  | "omegaseq", [] => "str " ++ omegaSeq T s
+  | "kappaX", [g1, g2] =>
+    match parseGroupTok g1 with
+    | none => "bad-op g1"
+    | some m1 => outExcept outRat (kappaX m1 (parseGroupTok g2) s)
+  | "region", [] => outExcept (fun n => s!"int {n}") (phaseRegion T s)
+  | "countPos", [] => s!"int {nPos T s}"
+  | "countNeg", [] => s!"int {nNeg T s}"
+  | "countNeut", [] => s!"int {nNeut T s}"
+  | "fplus", [] => outRat (fPlus T s)
+  | "fminus", [] => outRat (fMinus T s)
+  | "fcr", [] => outRat (fcr T s)
+  | "ncpr", [] => outRat (ncpr T s)
+  | "mnc", [] => outRat (meanNetCharge T s)
+  | "fer", [] => outRat (fer T s)
+  | "disorder", [] => outRat (fracDisorder T s)
+  | "aafrac", [] => outVec (AA.all.map (aaFraction s))
+  | "kd", [] => outRat (meanHydropathy T s)
+  | "uversky", [] => outRat (uverskyHydropathy T s)
+  | "ww", [] => outRat (meanWW T s)
+  | "ppii", ["hilser"] => outRat (ppii T.ppiiH s)
+  | "ppii", ["creamer"] => outRat (ppii T.ppiiC s)
+  | "ppii", ["kallenbach"] => outRat (ppii T.ppiiK s)
+  | "mw", [] => outRat (molWeight T s)
+  | "lag", [] => "ints" ++ String.join ((lagVec p).map (fun i => s!" {i}"))
+  | "scd", [] => s!"scdlag {p.length}" ++ String.join ((lagVec p).map (fun i => s!" {i}"))
+  | "seq", [] => "str " ++ s.toString
+  | "len", [] => s!"int {s.length}"
+  | "sty", [] => outNats (allSTY s)
+  -- C10
+  | "linNCPR", [w] => outExcept (fun v => outMat [posRow s, v]) (linNCPR T w.toNat! s)
+  | "linFCR", [w] => outExcept (fun v => outMat [posRow s, v]) (linFCR T w.toNat! s)
+  | "linSigma", [w] => outExcept (fun v => outMat [posRow s, v]) (linSigma T w.toNat! s)
+  | "linHydro", [w] => outExcept (fun v => outMat [posRow s, v]) (linHydro T w.toNat! s)
+  | "linComp", [w, g] =>
+    outExcept (fun rows => outMat (posRow s :: rows)) (linComposition w.toNat! (parseGroupsTok g) s)
+  -- C09
+  | "titr", [] => outNats (titrCounts s ++ [s.count AA.P, s.length])
+  -- C12
+  | "reduce", [size, ua] =>
+    outExcept (fun r => s!"red {r.1.toString} {(r.2 : Seq).toString}") (reduceSeq cfg size.toNat? (parseUserAlphabet ua) s)
+  -- C11: cplx <type> <size> <ua> <w> <step> <wordSize>
+  | "cplx", [typ, size, ua, w, st, ws] =>
+    let w := w.toNat!; let st := st.toNat!; let ws := ws.toNat!
+    if ¬ (typ == "WF" ∨ typ == "LC" ∨ typ == "LZW") then outExc .badComplexityType
+    else if s.length < w then outExc .windowTooLong
+    else match reduceSeq cfg size.toNat? (parseUserAlphabet ua) s with
+      | .error e => outExc e
+      | .ok (rs, al) =>
+        let wsx := windowsStep w st rs
+        let pos := complexityPositions wsx.length s.length
+        let posS := String.join (pos.map (fun n => s!" {n}"))
+        if typ == "WF" then
+          s!"wf {al.length} {w} {wsx.length}{posS} |" ++ String.join (wsx.map (fun win => " " ++ String.intercalate "," ((letterCounts al win).map toString)))
+        else if typ == "LC" then
+          s!"cx {wsx.length}{posS} |" ++ String.join (wsx.map (fun win => " " ++ ratStr (lcWindow al.length ws w win)))
+        else
+          s!"cx {wsx.length}{posS} |" ++ String.join (wsx.map (fun win => " " ++ ratStr (lzwWindow w win)))
+  | _, _ => "bad-op " ++ name
+
+structure St where
+  objs : List (Nat × Obj)
+
+def St.get (st : St) (i : Nat) : Option Obj := (st.objs.find? (fun kv => kv.1 == i)).map (·.2)
+def St.set (st : St) (i : Nat) (o : Obj) : St := { objs := (i, o) :: st.objs.filter (fun kv => kv.1 != i) }
+
+def handle (cfg : Cfg) (st : St) (line : String) : St × String :=
+  let T := cfg.T
   match (line.trimAscii.toString.splitOn " ").filter (· ≠ "") with
+  | ["reset"] => ({ objs := [] }, "ok")
   | ["argmax", a, b, c] =>
     let r := trueArgmax a.toNat! b.toNat! c.toNat!
-    s!"argmax {ratStr r.1} {patStr r.2} {ratStr (dmaxComp a.toNat! b.toNat! c.toNat!)}"
+    (st, s!"argmax {ratStr r.1} {patStr r.2} {ratStr (dmaxComp a.toNat! b.toNat! c.toNat!)}")
   | "q" :: name :: seqTok :: args =>
     match Seq.ofChars? seqTok.toList with
-    | none => "bad-op seq"
-    | some s =>
-      let p := patternOf T s
+    | none => (st, "bad-op seq")
+    | some s => (st, seqQuery cfg name s args)
+  -- C13
+  | ["mk", hex] => (st, outExcept (fun w => "str " ++ (w : Seq).toString) (construct pyOps (.str (unhex6 hex.toList))))
+  | ["mk"] => (st, outExcept (fun w => "str " ++ (w : Seq).toString) (construct pyOps (.str [])))
+  | "mkother" :: _ => (st, outExcept (fun w => "str " ++ (w : Seq).toString) (construct pyOps .other))
+  | "mkq" :: hex :: name :: args =>
+    match construct pyOps (.str (unhex6 hex.toList)) with
+    | .error e => (st, outExc e)
+    | .ok w => (st, seqQuery cfg name w args)
+  -- C14
+  | ["parse", hex] => (st, outExcept (fun w => "str " ++ String.ofList w) (parseFile pyOps (unhex6 hex.toList)))
+  | ["parse"] => (st, outExcept (fun w => "str " ++ String.ofList w) (parseFile pyOps []))
+  | "parseq" :: hex :: name :: args =>
+    match parseFile pyOps (unhex6 hex.toList) with
+    | .error e => (st, outExc e)
+    | .ok cs => match Seq.ofChars? cs with
+      | none => (st, "bad-op parsed")
+      | some w => (st, seqQuery cfg name w args)
+  -- stateful objects
+  | ["new", i, seqTok] =>
+    match Seq.ofChars? seqTok.toList with
+    | none => (st, "bad-op seq")
+    | some s => (st.set i.toNat! (Obj.fresh cfg.pal s), s!"ok {s.length}")
+  | "o" :: i :: name :: args =>
+    match st.get i.toNat! with
+    | none => (st, "bad-op noobj")
+    | some o =>
       match name, args with
-      | "kappa", [] => outRat (seqKappa T s)
-      | "delta", [] => outRat (seqDelta T s)
-      | "dform", [w] => outRat (deltaForm w.toNat! p)
-      | "dmax", [] => outRat (seqDmax T s)
+      | "kappa", [] => let r := o.kappa T; (st.set i.toNat! r.1, outRat r.2)
+      | "dmax", [] => let r := o.deltaMax T false; (st.set i.toNat! r.1, outRat r.2.1)
       | "dmaxperm", [] =>
-        match dmaxArg p with
-        | none => s!"perm {ratStr (seqDmax T s)} - {s.toString}"
-        | some c => s!"perm {ratStr (seqDmax T s)} {patStr c} {(permutantFromReduced c s).toString}"
-      | "sigma", [] => outRat (seqSigma T s)
-      | "specdelta", [] => outRat (Spec.delta p)
-      | "specsigma", [] => outRat (Spec.sigmaDef p)
-      | "specdmax", [] => outRat (Spec.dmaxDef (countPos p) (countNeg p) (countNeut p))
-      | "specregion", [] => s!"int {Spec.regionDef (countPos p) (countNeg p) p.length}"
-      | "pattern", [] => "str " ++ patStr p
-      | "omega", [] => outRat (omega T s)
-      | "omegaseq", [] => "str " ++ omegaSeq T s
-      | "kappaX", [g1, g2] =>
-        match parseGroupTok g1 with
-        | none => "bad-op g1"
-        | some m1 => outExcept outRat (kappaX m1 (parseGroupTok g2) s)
-      | "region", [] => outExcept (fun n => s!"int {n}") (phaseRegion T s)
-      | "countPos", [] => s!"int {nPos T s}"
-      | "countNeg", [] => s!"int {nNeg T s}"
-      | "countNeut", [] => s!"int {nNeut T s}"
-      | "fplus", [] => outRat (fPlus T s)
-      | "fminus", [] => outRat (fMinus T s)
-      | "fcr", [] => outRat (fcr T s)
-      | "ncpr", [] => outRat (ncpr T s)
-      | "mnc", [] => outRat (meanNetCharge T s)
-      | "fer", [] => outRat (fer T s)
-      | "disorder", [] => outRat (fracDisorder T s)
-      | "aafrac", [] => outVec (AA.all.map (aaFraction s))
-      | "kd", [] => outRat (meanHydropathy T s)
-      | "uversky", [] => outRat (uverskyHydropathy T s)
-      | "ww", [] => outRat (meanWW T s)
-      | "ppii", ["hilser"] => outRat (ppii T.ppiiH s)
-      | "ppii", ["creamer"] => outRat (ppii T.ppiiC s)
-      | "ppii", ["kallenbach"] => outRat (ppii T.ppiiK s)
-      | "mw", [] => outRat (molWeight T s)
-      | "lag", [] => "ints" ++ String.join ((lagVec p).map (fun i => s!" {i}"))
-      | "scd", [] => s!"scdlag {p.length}" ++ String.join ((lagVec p).map (fun i => s!" {i}"))
-      | _, _ => "bad-op " ++ name
-  | [] => ""
-  | _ => "bad-op"
+        let r := o.deltaMax T true
+        (st.set i.toNat! r.1, s!"perm {ratStr r.2.1} ? {((r.2.2).getD []).toString}")
+      | "kappaphos", [] => let r := o.kappaAfterPhos T; (st.set i.toNat! r.1, outRat r.2)
+      | "getphos", [] => (st, outNats o.getPhos)
+      | "phosseq", [] => (st, "str " ++ o.phosphoSeq.toString)
+      | "phosdist", [] =>
+        (st, s!"dist {(o.phosDist T).length}" ++ String.join ((o.phosDist T).map (fun e =>
+          " " ++ String.intercalate "," (e.1.map ratStr) ++ ":" ++ String.ofList (e.2.map (fun b => if b then '1' else '0')))))
+      | "html", [] => (st, "str " ++ o.html)
+      | _, _ => (st, seqQuery cfg name o.seq args)
+  | "setphos" :: i :: sites =>
+    match st.get i.toNat! with
+    | none => (st, "bad-op noobj")
+    | some o => (st.set i.toNat! (o.setPhos (sites.map String.toInt!)), "ok")
+  | ["clearphos", i] =>
+    match st.get i.toNat! with
+    | none => (st, "bad-op noobj")
+    | some o => (st.set i.toNat! o.clearPhos, "ok")
+  | ["setpal", i, d] =>
+    match st.get i.toNat! with
+    | none => (st, "bad-op noobj")
+    | some o => let r := o.setPal (parseDictTok d); (st.set i.toNat! r.1, if r.2 then "ok" else "exc badPalette")
+  -- C17 moves: tape-driven
+  | "move" :: kind :: seqTok :: rest =>
+    match Seq.ofChars? seqTok.toList with
+    | none => (st, "bad-op seq")
+    | some s => (st, moveOp T kind s rest)
+  | [] => (st, "")
+  | _ => (st, "bad-op")
 
-partial def loop (T : Tables) (h : IO.FS.Stream) (out : IO.FS.Stream) : IO Unit := do
+partial def loop (cfg : Cfg) (st : St) (h : IO.FS.Stream) (out : IO.FS.Stream) : IO Unit := do
   let line ← h.getLine
   if line.isEmpty then return ()
-  out.putStrLn (handle T line)
-  loop T h out
+  let (st', o) := handle cfg st line
+  out.putStrLn o
+  loop cfg st' h out
 
 def main (args : List String) : IO Unit := do
-  let T := if args.head? == some "spec" then specTables else genTables
+  let cfg : Cfg :=
+    if args.head? == some "spec" then
+      { T := specTables, pal := specPalette, reduceTab := Spec.reduceTab, alphabetTab := Spec.alphabetTab }
+    else
+      { T := genTables, pal := genPalette, reduceTab := Gen.reduceTab, alphabetTab := Gen.alphabetTab }
   let stdin ← IO.getStdin
   let stdout ← IO.getStdout
-  loop T stdin stdout
+  loop cfg { objs := [] } stdin stdout
